@@ -90,20 +90,48 @@ def parseFin (s : String) : Option Fin :=
   | "count" => some .count | "collect" => some .collect | "rev" => some .revCollect
   | _ => none
 
+/-- `min` / `max` are `core`'s provided methods: a fold over everything that is left.  They are run as `collect`
+followed by picking the least / greatest element (the last one among equal maxima, the first among equal minima, as `core` does). -/
+def parseFinPost (s : String) : Option (Fin × Option Bool) :=
+  if s = "min" then some (.collect, some true)
+  else if s = "max" then some (.collect, some false)
+  else (parseFin s).map (·, none)
+
+def pickMin {α} (lt : α → α → Bool) : List α → Option α
+  | [] => none
+  | x :: xs => some (xs.foldl (fun m y => if lt y m then y else m) x)
+
+def pickMax {α} (lt : α → α → Bool) : List α → Option α
+  | [] => none
+  | x :: xs => some (xs.foldl (fun m y => if lt y m then m else y) x)
+
+def postFin {α} (lt : α → α → Bool) (post : Option Bool) (o : OutF α) : OutF α :=
+  match post, o with
+  | some true, .list l => .item (pickMin lt l)
+  | some false, .list l => .item (pickMax lt l)
+  | _, o => o
+
+/-- byte-wise lexicographic order of names (`str`'s `Ord`) -/
+def nameLt : Name → Name → Bool
+  | [], [] => false
+  | [], _ :: _ => true
+  | _ :: _, [] => false
+  | a :: as, b :: bs => if a < b then true else if b < a then false else nameLt as bs
+
 /-- run ops then the finisher on the model iterator and on the cursor spec -/
-def runIter {α} [Inhabited α] (f : α → String) (nf bf : α → Res (Option α)) (init : Res (IterState α)) (specList : List α)
+def runIter {α} [Inhabited α] (f : α → String) (lt : α → α → Bool) (nf bf : α → Res (Option α)) (init : Res (IterState α)) (specList : List α)
     (toks : List String) : String :=
   let (opToks, finToks) := toks.span (· ≠ ";")
   let ops := opToks.filterMap parseOp
-  let fin := (finToks.drop 1).head?.bind parseFin
+  let finp := (finToks.drop 1).head?.bind parseFinPost
   let model : Res String := init.bind fun st =>
     (IterState.run nf bf st ops).bind fun (st', outs) =>
-      match fin with
+      match finp with
       | none => .ok (" ".intercalate (outs.map (showOut f)))
-      | some fn => (IterState.finish nf bf st' fn).bind fun o =>
-          .ok (" ".intercalate (outs.map (showOut f) ++ [showOutF f o]))
+      | some (fn, post) => (IterState.finish nf bf st' fn).bind fun o =>
+          .ok (" ".intercalate (outs.map (showOut f) ++ [showOutF f (postFin lt post o)]))
   let (l', souts) := Cursor.run specList ops
-  let specS := " ".intercalate (souts.map (showOut f) ++ (match fin with | none => [] | some fn => [showOutF f (Cursor.finish l' fn)]))
+  let specS := " ".intercalate (souts.map (showOut f) ++ (match finp with | none => [] | some (fn, post) => [showOutF f (postFin lt post (Cursor.finish l' fn))]))
   s!"M={showRes id model} S={specS}"
 
 def showFlag (f : Flag) : String := (reprStr f).replace "ET.Flag." ""
@@ -136,12 +164,12 @@ def execOp (t : Target) (x : Expansion) (sem : Option EnumSem) (toks : List Stri
       let s := unhex v; ms (showRes showOptInt (fromStr D x.modes.fromStrTrait s)) (showOptInt (spec.fromStr E s))
     else "M=? S=?"
   | "iter" :: rest =>
-    runIter (fun (v : Int) => toString v) (nextFn D) (nextBackFn D) (iterInit D x.modes.iter) (spec.iter E) rest
+    runIter (fun (v : Int) => toString v) (fun a b => decide (a < b)) (nextFn D) (nextBackFn D) (iterInit D x.modes.iter) (spec.iter E) rest
   | "range" :: a :: b :: rest =>
     let a := a.toInt!; let b := b.toInt!
-    runIter (fun (v : Int) => toString v) (nextFn D) (nextBackFn D) (rangeInit D t x.modes.iter a b) (spec.range E a b) rest
+    runIter (fun (v : Int) => toString v) (fun a b => decide (a < b)) (nextFn D) (nextBackFn D) (rangeInit D t x.modes.iter a b) (spec.range E a b) rest
   | "names" :: rest =>
-    runIter hex (fun _ => .ok none) (fun _ => .ok none) (.ok (namesInit D)) (spec.names E) rest
+    runIter hex nameLt (fun _ => .ok none) (fun _ => .ok none) (.ok (namesInit D)) (spec.names E) rest
   | ["tables"] =>
     let rs := if D.gapless then "gapless" else
       ";".intercalate ((tableRange D).map fun r => s!"{r.start}..{r.stop}@{r.ofs}")
